@@ -27,8 +27,12 @@ func NewFeature(geometry Object, members string) *Feature {
 			if gjson.Get(members, "feature").Exists() {
 				members, _ = sjson.Delete(members, "feature")
 			}
-			g.extra = new(extra)
-			g.extra.members = string(pretty.Ugly([]byte(members)))
+			members = string(pretty.Ugly([]byte(members)))
+			if members != "{}" {
+				// an object without members, such as "{ }", adds nothing
+				g.extra = new(extra)
+				g.extra.members = members
+			}
 		}
 	}
 	return g
